@@ -113,8 +113,16 @@ impl<T: Qcow2IoOps> Qcow2Dev<T> {
         };
 
         // Clear the L2 entry to all zeros (unallocated state, reads-as-zero).
+        // With a backing file an unallocated cluster reads from the backing
+        // image instead, so the zero flag has to be set to keep the discarded
+        // cluster reading as zeros.
         let idx = split.l2_slice_index(info);
-        l2_table.set(idx, L2Entry(0));
+        let cleared = if info.has_back_file() {
+            L2Entry(1)
+        } else {
+            L2Entry(0)
+        };
+        l2_table.set(idx, cleared);
         l2_handle.set_dirty(true);
         self.mark_need_flush(true);
         drop(l2_table);
